@@ -27,6 +27,7 @@ def _write(outdir, data):
 
 def main(argv):
     outdir, seed, runs = argv[0], int(argv[1]), int(argv[2])
+    t_start = time.time()
     deps = os.path.join(ROOT, ".deps")
     if deps not in sys.path:
         sys.path.append(deps)
@@ -46,7 +47,7 @@ def main(argv):
     from vf.props import c31
     known = runner.load_findings()
     env = venv.CaseEnv("thorough", seed)
-    state = {"n": 0, "nt": 0, "t0": time.time()}
+    state = {"n": 0, "nt": 0, "t0": t_start}
     verbs = c31.VFS_VERBS * 3 + c31.OTHER_VERBS + ["translate"] * 6 + \
         ["jail-open"] * 3
 
@@ -120,8 +121,10 @@ def main(argv):
                 "case": json.loads(runner.canon(case)),
                 "detail": runner.jsonable(detail, 3000)}})
         state["n"] += 1
-        if state["n"] % 500 == 0 or state["n"] >= runs:
-            late = time.time() - state["t0"] > 220
+        if state["n"] % 100 == 0 or state["n"] >= runs:
+            # safety net only (the budget is the run count); t0 is the process
+            # start, so a slow start on a loaded machine is covered as well
+            late = time.time() - state["t0"] > 170
             _write(outdir, {"runs": state["n"], "nontrivial": state["nt"],
                             "truncated": late})
             if late or state["n"] >= runs:
